@@ -20,6 +20,7 @@ RULE = (
     "bins/chrom), extent/offset/bins.fetch/pixels.fetch/matrix.fetch by the new name equal what the model "
     "predicts (= what the old name returned), and a name no longer in use is refused. Non-trivial = >=2 names "
     "changed in a step, one longer than any previous name, chain >= 2. Distinct by sha1 of the canonical case."
+    ' A third of the chains applies ONE mapping object first to a sibling cooler holding only the first chromosome, then to the cooler under test.'
 )
 ASSUMPTIONS = ["renaming maps only name existing chromosomes and never produce duplicate names"]
 
